@@ -115,7 +115,7 @@ impl Property for C10 {
         ]
     }
     fn expected_probes(&self) -> Vec<&'static str> {
-        vec!["success", "flag_mismatch", "parity_error", "short_block", "long_block", "verify_ok", "verify_mismatch", "past_end", "de_zero", "d_is_ff", "ix_wraps", "ix_in_rom", "block_crosses_128", "empty_block", "paging_locked_then_ignored_write", "rewind_between_requests", "rewind_after_end_of_tape", "play_stop_between_requests"]
+        vec!["success", "flag_mismatch", "parity_error", "short_block", "long_block", "verify_ok", "verify_mismatch", "past_end", "de_zero", "d_is_ff", "ix_wraps", "ix_in_rom", "block_crosses_128", "empty_block", "paging_locked_then_ignored_write", "rewind_between_requests", "rewind_after_end_of_tape", "play_stop_between_requests", "second_tape_inserted"]
     }
 
     fn gen(&self, rng: &mut Rng, _tier: Tier, _idx: u64) -> Scenario {
@@ -153,6 +153,11 @@ impl Property for C10 {
             if rewinds && rng.chance(1, 4) {
                 sc.op("ps", &[]);
             }
+            if rewinds && rng.chance(1, 8) {
+                // a second tape: the following requests are tuned to nothing in particular
+                sc.op("nt", &[(rng.next() >> 8) as i64]);
+                cursor = 99;
+            }
             let blk = blocks.get(cursor);
             cursor += 1;
             let blen = blk.map(|b| b.len()).unwrap_or(0);
@@ -187,7 +192,7 @@ impl Property for C10 {
     fn exec(&self, sc: &Scenario, ctx: &mut RunCtx) -> Result<(), Fail> {
         let m128 = sc.get("m128") != 0;
         let img = sc.ops.iter().find(|o| o.k == "tape").map(|o| o.b.clone()).unwrap_or_default();
-        let (blocks, tail) = tape::tap_blocks(&img);
+        let (mut blocks, mut tail) = tape::tap_blocks(&img);
         // fast loading enabled in the settings or switched on afterwards through the setter
         let late = sc.get("mem_seed") & 1 == 1;
         let cfg = MCfg { m128, fastload: !late, ..Default::default() };
@@ -234,6 +239,22 @@ impl Property for C10 {
                     }
                     e.verif_bus().write_io(0x7FFD, if unlocked { v | 0x10 } else { v });
                 }
+                continue;
+            }
+            if op.k == "nt" {
+                // the host inserts another tape: requests are served from its first block on
+                ctx.probe("second_tape_inserted");
+                let mut r2 = Rng::new(op.arg(0) as u64);
+                let nb = 1 + r2.below(3) as usize;
+                let bl: Vec<Vec<u8>> = (0..nb).map(|_| gen_block(&mut r2)).collect();
+                let img2 = tape::make_tap(&bl);
+                let plan2 = AssetPlan { max_chunk: sc.get("chunk").max(0) as usize, eof: if sc.get("eof_err") != 0 { EofStyle::Err } else { EofStyle::Ok0 }, ..Default::default() };
+                let (asset2, _st2) = SimAsset::new(img2.clone(), plan2);
+                e.load_tape(Tape::Tap(AnyAsset::Sim(asset2))).map_err(|x| Fail::new("C10.load_tape", "", format!("{:?}", x)))?;
+                let (b2, t2) = tape::tap_blocks(&img2);
+                blocks = b2;
+                tail = t2;
+                next_block = 0;
                 continue;
             }
             if op.k == "ps" {
